@@ -59,6 +59,45 @@ fn gen_searcher(rng: &mut Rng, pal: &[u8], many_ok: bool) -> SearcherSpec {
         opts.case_insensitive = false;
         opts.surface = Surface::Top;
     }
+    if !packed && rng.chance(1, 4) && opts.match_kind != MKind::Standard || (!packed && rng.chance(1, 8)) {
+        // shapes for which the builder picks one particular prefilter kind
+        let rare_pool = [b'Z', b'Q', b'@', b'#', b'~', b'X'];
+        let tail = |rng: &mut Rng, n: usize| -> Vec<u8> { (0..n).map(|_| *rng.pick(pal)).collect() };
+        patterns.clear();
+        match rng.below(3) {
+            0 => {
+                // a single pattern: memmem
+                let n = rng.range(2, 8);
+                patterns.push(tail(rng, n));
+            }
+            1 => {
+                // one to three distinct, infrequent start bytes: start-byte prefilter
+                let k = rng.range(1, 3);
+                for i in 0..rng.range(2, 6) {
+                    let mut p = vec![rare_pool[i % k]];
+                    let n = rng.range(1, 5);
+                    p.extend(tail(rng, n));
+                    patterns.push(p);
+                }
+            }
+            _ => {
+                // more than three first bytes but one to three shared rare bytes
+                // further inside: rare-byte prefilter
+                let k = rng.range(1, 3);
+                for i in 0..rng.range(4, 7) {
+                    let mut p = vec![pal[i % pal.len()], b'0' + i as u8];
+                    let n = rng.range(0, 3);
+                    p.extend(tail(rng, n));
+                    p.push(rare_pool[3 + i % k]);
+                    let n = rng.range(0, 2);
+                    p.extend(tail(rng, n));
+                    patterns.push(p);
+                }
+            }
+        }
+        opts.prefilter = true;
+        opts.case_insensitive = false;
+    }
     let packed_cfg = if packed { *rng.pick(&[0u8, 0, 0, 1, 2, 3, 4, 5]) } else { 0 };
     SearcherSpec { patterns, opts, packed, packed_cfg }
 }
